@@ -23,12 +23,15 @@ type scenario struct {
 	t    *tree
 	tip  *chain.BlockTreeNode
 	desc string
+	seed uint64
+	length, spacing int
 }
 
 func (sc *scenario) register(n *chain.BlockTreeNode) { sc.ch.BlockIndex[n.BlockHash.BIdx()] = n }
 
-func newScenario(g *vlib.Rng, net netKind, length, spacing int) *scenario {
-	sc := &scenario{net: net, t: newTree(), ch: newChain(net, easyBits)}
+func newScenario(seed uint64, net netKind, length, spacing int) *scenario {
+	g := vlib.NewRng(seed)
+	sc := &scenario{net: net, t: newTree(), ch: newChain(net, easyBits), seed: seed, length: length, spacing: spacing}
 	sc.desc = fmt.Sprintf("%s len=%d spacing=%d", net.name, length, spacing)
 	ts := uint32(1700000000 - length*spacing - 100000)
 	tip := sc.t.add(nil, 0, ts, easyBits)
@@ -793,22 +796,31 @@ func runBlock(kind string, sc *scenario, s *blockSpec, cons consH, raw []byte, n
 func stableNow() int64 { return time.Now().Unix() }
 
 func oneBlockCase(kind string, g *vlib.Rng, sc *scenario) {
+	oneBlockCaseSeed(kind, g.U64(), sc)
+}
+
+// oneBlockCaseSeed: the whole case is a function of (scenario seed/shape, case seed) and of the clock for the
+// time-relative mutations — that pair is what a replay file records.
+func oneBlockCaseSeed(kind string, caseSeed uint64, sc *scenario) {
 	for attempt := 0; attempt < 5; attempt++ {
-		gg := g.Fork()
+		gg := vlib.NewRng(caseSeed)
 		now := stableNow()
 		var cons consH
 		s := genBlock(gg, sc, now, &cons, "")
 		raw := s.raw()
-		rep := map[string]interface{}{"op": "block", "mutation": s.mut, "raw": fmt.Sprintf("%x", raw), "scenario": sc.desc, "now_at_run": now,
+		rawHex := fmt.Sprintf("%x", raw)
+		if len(rawHex) > 4000 {
+			rawHex = rawHex[:4000] + "…"
+		}
+		rep := map[string]interface{}{"op": "block", "mutation": s.mut, "raw": rawHex, "scenario": sc.desc, "now_at_run": now,
 			"cons": []uint32{cons.bip34, cons.bip65, cons.bip66, cons.csv, cons.segwit, cons.taproot},
 			"parent_chain": refChain(sc.tip)[:min(len(refChain(sc.tip)), 14)], "trusted": s.trusted, "preparsed": s.preParsed, "dup": s.dupIndex, "short": s.shortRaw,
-			"net": sc.net.name, "parent_back": backSteps(sc.tip, s.parent)}
+			"net": sc.net.name, "parent_back": backSteps(sc.tip, s.parent),
+			"sc_seed": fmt.Sprint(sc.seed), "sc_len": sc.length, "sc_spacing": sc.spacing, "case_seed": fmt.Sprint(caseSeed), "kind": kind}
 		if time.Now().Unix() != now { // the second changed while building: the +2h boundary would be ambiguous
 			continue
 		}
-		before := r.Violations()
 		runBlockTimed(kind, sc, s, cons, raw, now, rep)
-		_ = before
 		return
 	}
 }
@@ -847,7 +859,7 @@ func backSteps(tip, parent *chain.BlockTreeNode) int {
 
 // corpusBlocks: fixed witnesses of past findings and the named boundaries, run first.
 func corpusBlocks(g *vlib.Rng) {
-	sc := newScenario(g, nets[0], 20, 600)
+	sc := newScenario(g.U64(), nets[0], 20, 600)
 	// fixed 4aa7af8a: versions with the top bit set at heights where version gating is active
 	for _, v := range []uint32{0x80000000, 0x80000004, 0xffffffff, 0xfffffffe, 0x7fffffff, 1, 2, 3, 4} {
 		for _, gate := range []consH{{1, 1000, 1000, 0, 0, 0}, {1000, 1, 1000, 0, 0, 0}, {1000, 1000, 1, 0, 0, 0}, {21, 21, 21, 0, 0, 0}, {22, 22, 22, 0, 0, 0}} {
@@ -874,7 +886,7 @@ func streamBlocks(g *vlib.Rng) {
 		if g.Chance(1, 6) {
 			length = 0
 		}
-		sc := newScenario(g, net, length, 600)
+		sc := newScenario(g.U64(), net, length, 600)
 		for k := 0; k < per; k++ {
 			oneBlockCase("short-chain", g, sc)
 		}
@@ -892,7 +904,7 @@ func streamBlocks(g *vlib.Rng) {
 		if i >= 2 {
 			length = 4031
 		}
-		sc := newScenario(g, net, length, sp)
+		sc := newScenario(g.U64(), net, length, sp)
 		for k := 0; k < r.N(25, 150); k++ {
 			oneBlockCase("retarget-boundary", g, sc)
 		}
@@ -931,7 +943,7 @@ func deepForkCase(g *vlib.Rng, sc *scenario, back int) {
 
 // weightCases: blocks of weight exactly 4,000,000 and 4,000,001 (and neighbours), fresh and pre-parsed.
 func weightCases(g *vlib.Rng) {
-	sc := newScenario(g, nets[0], 12, 600)
+	sc := newScenario(g.U64(), nets[0], 12, 600)
 	targets := []int{3999999, 4000000, 4000001, 4000004}
 	for i, target := range targets {
 		if i >= r.N(3, 4) {
@@ -1007,9 +1019,26 @@ func addCommitmentDet(txs []*rtx) {
 	cb.outs = append(cb.outs, rout{0, append(append([]byte{}, witnessHdr...), c...)})
 }
 
-// replayBlock re-runs a recorded block case: the scenario is rebuilt from the recorded parent chain.
+// replayBlock re-runs a recorded block case: scenario and block are regenerated from the recorded seeds
+// (time-relative mutations are rebuilt relative to the current clock, which is what the rule is about).
 func replayBlock(m map[string]interface{}) {
-	fmt.Println("replay: block cases are re-generated from the recorded seed (stream 8); running the block stream")
-	streamBlocks(rngFor(8))
+	str := func(k string) string { s, _ := m[k].(string); return s }
+	num := func(k string) int { f, _ := m[k].(float64); return int(f) }
+	if str("sc_seed") == "" || str("case_seed") == "" {
+		fmt.Println("replay: this block case is re-generated by running the block stream with the recorded seed")
+		streamBlocks(rngFor(8))
+		return
+	}
+	var scSeed, caseSeed uint64
+	fmt.Sscan(str("sc_seed"), &scSeed)
+	fmt.Sscan(str("case_seed"), &caseSeed)
+	net := nets[0]
+	for _, n := range nets {
+		if n.name == str("net") {
+			net = n
+		}
+	}
+	sc := newScenario(scSeed, net, num("sc_len"), num("sc_spacing"))
+	oneBlockCaseSeed(str("kind"), caseSeed, sc)
 	_ = big.NewInt
 }
